@@ -62,7 +62,9 @@ def rand_ip(r):
         q = "%d.%d.%d.%d" % tuple(r.getrandbits(8) for _ in range(4))
         return r.choice(["::ffff:" + q, "::" + q, "::0.0.0.5", "64:ff9b::" + q, "2001:db8::" + q])
     if c == 6:      # wire addresses whose first twelve bytes are zero, or the mapped prefix with a zero quad
-        return socket.inet_ntop(socket.AF_INET6, r.choice([bytes(12) + gen.rbytes(r, 4), bytes(10) + b"\xff\xff" + bytes(4), bytes(15) + b"\x01", bytes(16)]))
+        return socket.inet_ntop(socket.AF_INET6, r.choice([bytes(12) + gen.rbytes(r, 4), bytes(10) + b"\xff\xff" + bytes(4), bytes(15) + b"\x01", bytes(16),
+                                                           bytes(8) + b"\xff\xff" + gen.rbytes(r, 6),       # ::ffff:a:b:c - not a mapped address
+                                                           bytes(10) + b"\xff\xfe" + gen.rbytes(r, 4), bytes(9) + b"\x01\xff\xff" + gen.rbytes(r, 4)]))
     if c == 0:
         return "0.0.0.0"
     if c == 1:
